@@ -19,7 +19,7 @@ CFGS = {
     # ---------------------------------------------------------------- quick tier
     # value flow without IBC faults: stake / unstake / submit / return (exact, short) / withdraw / rewards / fees
     "flow_q": dict(),
-    "flow_treasury_q": dict(TreasuryAddr='"treasury"', OracleAddr='""', Returns='{"exact"}'),
+    "flow_treasury_q": dict(TreasuryAddr='"treasury"', OracleAddr='""', Returns='{"exact"}', Extras='{"wrongsender", "tspend"}'),
     # fee accounting: fees accrue without a treasury, the treasury is switched on / off, FeeWithdraw of 1 / all / all+1
     "fees_q": dict(Extras='{"toggle"}', UnstakeAmts="{}", RewardAmts="{2, 5}", RcvKinds='{"self"}', Returns="{}", MaxBatches="1",
                    MaxN="9", MaxSeq="4", MaxPk="4", MaxTime="0", Principals='{"admin", "u1"}'),
